@@ -336,6 +336,11 @@ class OnePort(Network, ImmittanceMixin):
         Isc = new.Isc
         Y = new.admittance
 
+        if Isc == 0:
+            # No independent sources; the model is the admittance
+            # whatever the signal applied to the terminals.
+            return Y.cpt()
+
         if Isc.is_superposition and not Y.is_real:
             warn('Detected superposition with reactive impedance, using s-domain.')
             Y1 = Y
@@ -399,6 +404,11 @@ class OnePort(Network, ImmittanceMixin):
         new = self.simplify()
         Voc = new.Voc
         Z = new.impedance
+
+        if Voc == 0:
+            # No independent sources; the model is the impedance
+            # whatever the signal applied to the terminals.
+            return Z.cpt()
 
         if Voc.is_superposition and not Z.is_real:
             warn('Detected superposition with reactive impedance, using s-domain.')
